@@ -75,4 +75,5 @@ func c10r910(p *model.Prog, r *report.Result) {
 	w7TsFileName(p, r, "C10.R13")
 	w8CacheResetWithRefill(p, r, "C10.R14")
 	w8TsNameClock(p, r, "C10.R15")
+	w9CutsetMisuse(p, r, "C10.R16", "pkg/hls", "pkg/logic")
 }
